@@ -40,6 +40,9 @@ CORPUS = {
     "sametag": [("A", [], "struct A {\n    uint8 n;\n    struct entry {\n        uint8 a;\n    } entries[2];\n};\n"),
                 ("B", [], "struct B {\n    struct entry {\n        uint32 x;\n        uint16 y;\n    } entries[2];\n    uint8 t;\n};\n"),
                 ("test", ["A", "B"], "struct test {\n    A a;\n    B b;\n    uint48 u[2];\n    int48 s[2];\n};\n")],
+    "names": [("point", [], "struct point {\n    uint8 x;\n    uint8 y;\n} pt, point_t;\n"),
+              ("anonpair", [], "struct {\n    uint16 lo;\n    uint16 hi;\n} pair_a, pair_b;\n"),
+              ("test", ["point", "anonpair"], "struct test {\n    pt a;\n    point_t b;\n    point c;\n    pair_a p;\n    pair_b q;\n};\n")],
     "multi": [("A", [], "struct A {\n    uint8 x;\n};\n"), ("B", [], "struct B {\n    uint16 y;\n};\n"), ("Cc", [], "typedef uint32 Cc;\n"),
               ("test", ["A", "B", "Cc"], "struct test {\n    A a;\n    B b;\n    Cc c;\n};\n")],
 }
